@@ -11,3 +11,7 @@ package subject
 //@   logged shash
 //@   nomaprange Write
 //@   ensures hw.n == old(hw.n) + 1 && shanew.n == old(shanew.n) + 1 && hw.arg0[old(hw.n)] == shanew.ret0[old(shanew.n)]
+// "independent of map iteration order or any other incidental nondeterminism": what is digested is
+// the subject as marshalled by json.Marshal (ghost log jm), whose output for maps is sorted by key
+// (trusted std / goccy behaviour) - not some other encoding of it
+//@   ensures jm.n == old(jm.n) + 1 && jm.arg0[old(jm.n)] == iface(s) && hw.arg1[old(hw.n)] == jm.ret0[old(jm.n)]
